@@ -57,7 +57,8 @@ type jsonRow struct {
 
 var strPool = []string{"", "a", "plain text", "with,comma", `with "quotes"`, "multi\nline", " leading", "trailing ", "ünï©ødé ✓", `""`, ",", "\n", `a,"b",c`, "tab\there", "'single'", "#hash", "null", "0", "-1.5e3", "true",
 	"bell\a", "\v", "del\x7f", "nul\x00mid", "\u2028line", "tag\U000E0001", `back\slash`, "<a href='x'>&amp;</a>", "\u00a0nbsp", "#", "\ufeffbom",
-	"first\rsecond", "\rlead", "a\r\rb"} // a carriage return not followed by a line feed is data (CR LF pairs are normalised by encoding/csv and stay out)
+	"first\rsecond", "\rlead", "a\r\rb",
+	`C:\reports\raw\new\table`, `\r?\n`, `\\`, `\"`, `\,`, `\0`, "%0D%0A", "&#13;", `\u000d`, `\x0d`, `$1`, `{{.}}`, `%s %d`} // a carriage return not followed by a line feed is data (CR LF pairs are normalised by encoding/csv and stay out)
 var f64Pool = []float64{0, math.Copysign(0, -1), 1, -1, 0.1, 1.0 / 3, math.MaxFloat64, -math.MaxFloat64, math.SmallestNonzeroFloat64, 5e-324, 1e21, 1e-7, 123456789.123456789, math.Inf(1), math.Inf(-1), math.Pi}
 var f32Pool = []float32{0, 1, -1, 0.1, 1.0 / 3, math.MaxFloat32, math.SmallestNonzeroFloat32, 16777217, 1e-10}
 
@@ -237,6 +238,13 @@ func (c11) Gen(rng *rand.Rand, tier string, k int) *Case {
 		c.Ops = append(c.Ops, OpSpec{Op: op, N: n, Seed: rng.Int63n(1 << 30)})
 	}
 	c.Ops = append(c.Ops, OpSpec{Op: "permuted", N: rng.Intn(5), Seed: rng.Int63n(1 << 30), From: rng.Intn(4)})
+	if rng.Intn(2) == 0 {
+		// the codec value that read a document in another column order writes files afterwards
+		at := rng.Intn(len(c.Ops))
+		last := c.Ops[len(c.Ops)-1]
+		copy(c.Ops[at+1:], c.Ops[at:len(c.Ops)-1])
+		c.Ops[at] = last
+	}
 	c.Ops = append(c.Ops, OpSpec{Op: "json", N: rng.Intn(6), Seed: rng.Int63n(1 << 30), From: rng.Intn(7)}) // From: element type
 	if rng.Intn(16) == 0 {
 		c.Ops[len(c.Ops)-1].N = 100 + rng.Intn(500) // a document of several buffers' length
@@ -437,7 +445,13 @@ func (c11) Run(c *Case, st *Stats) []Violation {
 					st.cell("permuted", fragClass(c.Frag), c.Policy.Name)
 					// the same codec value then reads a document that lacks some of the columns: it
 					// must read it as a fresh codec does (nothing remembered from the earlier header)
-					if drop := 1 + rng.Intn(3); drop < len(perm) {
+					// (what the codec value does next is drawn: another document, the file, or - one
+					// time in three - nothing, so that the next operation of the history finds the
+					// codec as the permuted document left it)
+					if op.Seed%3 == 0 {
+						break
+					}
+					if drop := 1 + rng.Intn(3); drop < len(perm) && op.Seed%3 == 1 {
 						narrow := independentCsv(rows, perm[:len(perm)-drop], 0)
 						fresh, err := helper.NewCsv[csvRow](true)
 						if err != nil {
